@@ -219,7 +219,7 @@ def rule_unreg(ctx, R):
                       "the client popped for a wake-up keeps its registrations under its other keys (multi-key BLPOP): they swallow elements pushed to those keys later", b.loc(i))
     # timeouts: get_expired_clients removes the client from every key queue it scans and empties
     g = ctx.prog.need(BR + "get_expired_clients")
-    rm = [i for i, t in g.calls() if re.search(r"VecDeque::<network::blocking::BlockedClient>::(remove|retain|drain)", t["f"] or "")]
+    rm = [i for i, t in g.calls() if re.search(r"VecDeque::<network::blocking::BlockedClient>::(remove|retain|drain|swap_remove_back|swap_remove_front|retain_mut)", t["f"] or "")]
     it = [i for i, t in g.calls() if re.search(r"HashMap::<std::vec::Vec<u8>, std::collections::VecDeque<network::blocking::BlockedClient>>::(iter_mut|values_mut)", t["f"] or "")]
     R.inst(g.fn, "timeout-removal", {"iterates_all_keys": bool(it), "removes_from_queue": bool(rm)})
     if not (rm and it):
@@ -348,3 +348,30 @@ def rule_eof(ctx, R):
                     R.finding(b.fn, "blocked-connections-never-read",
                               "connections in the Blocked state are excluded from reading: a client that disconnects while blocked is not noticed, and the next element pushed to its key is popped for it and lost", b.loc(i))
     R.note("filters over the connection id list: %d" % n)
+
+
+
+ORDER_KEEPING = re.compile(r"::(push_back|pop_front|remove|retain|retain_mut|drain|clear|iter|iter_mut|len|is_empty|front|front_mut|get|get_mut|back|with_capacity|new|contains|position|extend)(::<.*>)?$")
+
+
+def rule_fifo(ctx, R):
+    """blocked clients are served in the order they blocked: the per-key waiter queue is appended
+    at the back, served from the front and otherwise edited only by order-preserving operations
+    (remove / retain / drain).  swap_remove_*, push_front, insert, sort*, reverse, rotate*,
+    make_contiguous().sort() ... change who is next."""
+    n = 0
+    for fn, b in sorted(ctx.prog.bodies.items()):
+        if not fn.startswith("network::blocking::") or "::tests::" in fn:
+            continue
+        for i, t in b.calls():
+            f = t["f"] or ""
+            m = re.match(r"^std::collections::VecDeque::<network::blocking::BlockedClient>::(\w+)", f)
+            if not m or b.bbs[i].get("cleanup"):
+                continue
+            n += 1
+            ok = bool(ORDER_KEEPING.search(f))
+            R.inst(fn, "waiter-queue-op:" + m.group(1), {"function": fn, "op": m.group(1), "order_preserving": ok} if not ok or n % 3 == 0 else None)
+            if not ok:
+                R.finding(fn, "waiter-queue:%s" % m.group(1),
+                          "%s edits a key's waiter queue with VecDeque::%s (line %d), which does not keep the arrival order: a client that blocked later can be served before one that blocked earlier" % (fn.split("::")[-1], m.group(1), b.bb_line(i)), b.loc(i))
+    R.floor("waiter_queue_operations", n)
